@@ -689,9 +689,15 @@ def reject_if(ctx, rid, f, pred, pol, what, construct, success=None, min_edges=1
         # the end of its block on every path
         known = {(k, p) for k, p, a in f.edge_facts(bid, i, all=True)}
         known |= {(k, p) for k, (p, a) in f.facts_at({'_b': bid, '_i': len(f.blocks[bid]['ev'])}).items() if (k, not p) not in known}
+        # a bool return whose value is decided by what this path assigned (`return a_ok && b_ok` after `a_ok = Error()`)
+        # is a failure return on this path
+        hit_ok = None
+        if success is None and f.retk == 'bool':
+            from model import path_value
+            hit_ok = lambda ev, facts: not (ev.get('k') == 'ret' and ev.get('e') is not None and path_value(f, ev['e'], facts) == 0)
         r = f.find_path(None, succ_pred, from_succ=s, init_facts=frozenset(known),
                         is_blocker=lambda x: (x['k'] == 'ret' and not succ_pred(x)) or
-                        (until is not None and until(x)))
+                        (until is not None and until(x)), hit_ok=hit_ok)
         line = f.blocks[bid].get('term', {}).get('line', f.line)
         ok &= ctx.check(rid, r is None, f.name, construct, 'src/%s:%s' % (f.file, line),
                         '%s — when %s%s, %s cannot return success' % (
